@@ -176,7 +176,10 @@ class Runner:
             return None, 'replay timed out'
         out = (p.stdout + p.stderr)[-2000:]
         if p.returncode == 1:
-            return True, out
+            # a replay that crashes also exits 1: only an explicit REPRODUCED line on stdout counts as a confirmation
+            if 'REPRODUCED' in p.stdout:
+                return True, out
+            return None, 'replay exited 1 without a REPRODUCED line (crash?): ' + out[-600:]
         if p.returncode == 0:
             return False, out
         return None, out
